@@ -2,6 +2,7 @@ package main
 
 import (
 	"fmt"
+	"math"
 
 	"qmc/core"
 	"qmc/enum"
@@ -30,7 +31,8 @@ func c02Opts(thorough bool) opCaseOpts {
 		}
 	}
 	// dimension sizes beyond 3 (constants such as 2/(n-1), thresholds, block sizes)
-	quick = append(quick, []int{4}, []int{5}, []int{7}, []int{2, 4}, []int{5, 2}, []int{4, 4}, []int{2, 5, 3}, []int{33})
+	quick = append(quick, []int{4}, []int{5}, []int{7}, []int{2, 4}, []int{5, 2}, []int{4, 4}, []int{2, 5, 3}, []int{33},
+		[]int{6}, []int{8}, []int{16}, []int{8, 2}, []int{2, 1, 2, 1, 2}, []int{1, 2, 1, 2, 1, 2}, []int{1024})
 	return opCaseOpts{shapes: quick, maxIndexRank: 4, concatSizes: []int{1, 2}, concat3: true, bigIndexLimit: 64}
 }
 
@@ -56,6 +58,19 @@ func checkC02(c *core.Ctx) {
 					id := fmt.Sprintf("%s|m%d|v%d|w%d", oc.ID(), mask, vi, wi)
 					c.Case(id, ref.Size(oc.In[0]) > 1, func() core.Verdict {
 						return c02Run(oc, genInputs(oc.Op, oc.In, uint64(100+vi)), mask, wi)
+					})
+				}
+			}
+		}
+		// inputs of extreme scale (x 1e-13, x 1e-100, x 1e+100) for the rules that divide
+		// by, or multiply with, quantities derived from the operand
+		switch oc.Op.K {
+		case "StdAlong", "VarAlong", "MeanAlong", "AvgAlong", "SumAlong", "MaxAlong", "MinAlong", "Div", "Mul", "Log", "Dot", "MatMul", "Scale", "Sub":
+			if ref.Size(oc.In[0]) <= 64 {
+				for si, sc := range []float64{1e-13, 1e-100, 1e100} {
+					si, sc := si, sc
+					c.Case(fmt.Sprintf("%s|scale%d", oc.ID(), si), true, func() core.Verdict {
+						return c02Scaled(oc, sc)
 					})
 				}
 			}
@@ -106,6 +121,45 @@ func c02Run(oc OpCase, in []*ref.T, mask int, wi int) core.Verdict {
 	v := gradCase(p, root, gradOpts{})
 	if !v.OK && !v.Skip {
 		v.Detail = describeProgram(p) + " :: " + v.Detail
+	}
+	return v
+}
+
+func c02Scaled(oc OpCase, sc float64) core.Verdict {
+	in := genInputs(oc.Op, oc.In, 103)
+	for _, t := range in {
+		for i := range t.V {
+			t.V[i] *= sc
+		}
+	}
+	p := &ref.Program{Leaves: in}
+	ids := make([]int, len(in))
+	for i := range in {
+		p.Tracked = append(p.Tracked, true)
+		ids[i] = i
+	}
+	p.Nodes = []ref.Node{{Op: oc.Op, In: ids}}
+	if _, ok := p.Forward(); !ok {
+		return core.Skip()
+	}
+	q, root := withWeighting(p, len(in), 9)
+	vals, _ := q.Forward()
+	g, _ := q.Backward(vals, root, nil, false)
+	for _, ts := range [][]*ref.T{vals, g} {
+		for _, t := range ts {
+			if t == nil {
+				continue
+			}
+			for _, x := range t.V {
+				if math.IsInf(x, 0) || math.IsNaN(x) || (x != 0 && math.Abs(x) < 1e-290) {
+					return core.Skip() // overflow / denormal range: not specified
+				}
+			}
+		}
+	}
+	v := gradCaseNoForward(q, root, gradOpts{relTensor: true})
+	if !v.OK && !v.Skip {
+		v.Detail = describeProgram(q) + fmt.Sprintf(" (inputs scaled by %g) :: ", sc) + v.Detail
 	}
 	return v
 }
